@@ -1,5 +1,4 @@
-import AslModel.Model.ExprQuote
-import AslModel.Spec.LitFormula
+import AslModel.Lemmas.ExprQuote
 /-!
 # C08, part "constants inside formulas": an IBM-style constant without closing apostrophe is ONE token
 
@@ -12,35 +11,45 @@ The split rule of C08 (`C08_parse`, token level) takes tokens as given.  The the
 for the one lexical rule that depends on the target: for EVERY digit string of the constant's base the callback reports
 "no string delimiter", so the scan's quote state (and with it brackets, operator candidates and the comma search) behind
 the constant is the state in front of it.
+
+`C08_quote_qualify_spec` (and its two consequences for the scan and the splitter) is the relation the driver field `qual`
+compares per run, as a theorem: for EVERY text and EVERY position the callback answers "string delimiter" exactly when the
+SPEC's `openIbmAt` says the apostrophe does not belong to an open IBM constant.  Helper lemmas (`EndsConstant`,
+`sqcRun_digits`, `text_at`, the per-character class lemmas): `Lemmas/ExprQuote.lean`.
 -/
 namespace AslModel.C08
 open AslModel.Formula AslModel.Expr AslModel.ExprQ AslModel.LitFormula
 
-/-- what may follow an open constant: the end of the text, or a character that is neither a digit of the base,
-nor a letter or digit, nor an apostrophe -/
-def EndsConstant (b : Nat) (rest : List Char) : Prop :=
-  rest = [] ∨ ∃ c r, rest = c :: r ∧ c ≠ '\'' ∧ cIsAlnum c = false ∧ sqcDigitOk b c = false
+/-- **the callback is the SPEC's predicate**: for every text `t` and every position `p` (an apostrophe or not, inside the text
+or behind its end) `QualifyQuote_SingleQuoteConstant` answers "this apostrophe delimits a character string" exactly when the
+manual's reading "the apostrophe belongs to an IBM-style constant written without closing apostrophe" (`openIbmAt`: letter of a
+numbering system in front, a non-empty run of digits OF THAT SYSTEM behind, ended by the end of the text or by a character that
+is neither apostrophe nor letter nor digit) does not hold.  No hypothesis: all characters (the ASCII half by evaluation of the
+128 cases per class, the others by the range tests), all lengths. -/
+theorem C08_quote_qualify_spec (t : List Char) (p : Nat) : qualifySQC t p = !openIbmAt t p :=
+  qualifySQC_eq_not_openIbmAt t p
 
-theorem sqcRun_digits (b : Nat) (ds rest : List Char) (hd : ∀ d ∈ ds, sqcDigitOk b d = true)
-    (he : EndsConstant b rest) : sqcRun b (ds ++ rest) = rest := by
-  induction ds with
-  | nil =>
-    rcases he with h | ⟨c, r, h, _, _, hc⟩
-    · subst h; rfl
-    · subst h; simp [sqcRun, hc]
-  | cons d ds ih =>
-    have h1 : sqcDigitOk b d = true := hd d (by simp)
-    have h2 := ih (fun x hx => hd x (by simp [hx]))
-    simp [sqcRun, h1, h2]
+/-- **the operator scan enters a character string exactly where the SPEC says a string starts**: outside quotations and
+escapes, at ANY apostrophe of ANY text, the scan of `EvalStrExpression` with the callback installed sets `InSgl` iff the
+apostrophe does not belong to an open IBM constant; nothing else of the state changes but `ThisEscaped`. -/
+theorem C08_quote_scan_spec (t : List Char) (p : Nat) (s : QS)
+    (hs : s.inSgl = false) (hd : s.inDbl = false) (he : s.thisEsc = false) :
+    stepQ (some qualifySQC) t p '\'' s = ({ s with inSgl := !openIbmAt t p, thisEsc := false }, 1) := by
+  have hq := C08_quote_qualify_spec t p
+  cases ho : openIbmAt t p <;> simp [stepQ, quoteToggles, hq, hs, hd, he, ho]
 
-theorem text_at (pre : List Char) (l : Char) (tail : List Char) :
-    (pre ++ l :: '\'' :: tail).getD (pre.length + 1 - 1) ' ' = l ∧
-    (pre ++ l :: '\'' :: tail).drop (pre.length + 1 + 1) = tail := by
-  constructor
-  · simp [List.getD]
-  · have : pre.length + 1 + 1 = pre.length + 2 := rfl
-    rw [this, List.drop_append]
-    simp
+/-- the same for `QuotPosCore` (the comma search of the argument splitter) -/
+theorem C08_quote_split_spec (t : List Char) (p : Nat) (st : PS)
+    (hs : st.inSgl = false) (hd : st.inDbl = false) (he : st.thisEsc = false) :
+    stepP (some qualifySQC) t p '\'' st = { st with inSgl := !openIbmAt t p, thisEsc := false } := by
+  have hq := C08_quote_qualify_spec t p
+  cases ho : openIbmAt t p <;> simp [stepP, quoteToggles, hq, hs, hd, he, ho]
+
+/-- non-vacuity: both answers occur, and the initial state satisfies the hypotheses of the two consequences -/
+example : openIbmAt "2*O'27-O'7".toList 3 = true ∧ openIbmAt "O'18+1".toList 1 = false ∧ openIbmAt "h'7F".toList 1 = true ∧
+    openIbmAt "1+'A'".toList 2 = false ∧ openIbmAt "O'17'+1".toList 1 = false ∧
+    ({} : QS).inSgl = false ∧ ({} : QS).inDbl = false ∧ ({} : QS).thisEsc = false ∧
+    ({} : PS).inSgl = false ∧ ({} : PS).inDbl = false ∧ ({} : PS).thisEsc = false := by decide
 
 /-- **a qualified constant, every digit string of its base**: for each of the letters `H X O B` (either case), every
 non-empty string of digits of that letter's base - all of them, including the largest digit - and every continuation
